@@ -34,11 +34,15 @@ def decHf (s : String) : Option Err := if s == "-" then none else decErr s
 def decOutcome (s : String) : Option Outcome :=
   if s == "nil" then some .nil
   else if s == "ctx" then some .ctxCanceled
+  else if s == "dl" then some (.err "context deadline exceeded")
+  else if s == "wdl" then some (.err "work gave up: context deadline exceeded")
   else if s.startsWith "err:" then (decStr (s.drop 4).toString).map .err
   else none
 
 def showOutcome : Outcome → String
-  | .nil => "nil" | .ctxCanceled => "ctx" | .err m => "err:" ++ encStr m
+  | .nil => "nil" | .ctxCanceled => "ctx"
+  | .err m => if m == "context deadline exceeded" then "dl"
+              else if m == "work gave up: context deadline exceeded" then "wdl" else "err:" ++ encStr m
 
 def showErrOpt : Option Err → String
   | none => "ok" | some e => encErr e
